@@ -174,6 +174,14 @@ class C12(PropBase):
                 steps.append({"id": len(steps), "op": "mutate_result", "ref": len(steps) - 1})
                 steps.append({"id": len(steps), "t": t, "mod": mod_, "op": "unmarshal", "x": hist.carry(nested, carrier)})
                 continue
+            if rng.random() < 0.05:
+                # motif: an iterator target fed from the caller's (writable) receive buffer; the caller re-uses the buffer
+                # for the next message once the call has returned - before it reads the iterator
+                a_, b_, tt = rng.choice([("[1, 2, 3]", "[7, 8, 9]", "typing.Iterator[int]"), ('["a", "b"]', '["c", "d"]', "collections.abc.Iterator[str]"),
+                                         ("[[1], [2]]", "[[3], [4]]", "typing.Iterator[list[int]]"), ("[1, 2, 3]", "[4]", "typing.Iterator[int]")])
+                steps.append({"id": len(steps), "op": "s_iter_late", "t": {"k": "raw", "src": tt}, "mod": rng.choice(mods), "a": a_, "b": b_,
+                              "carrier": rng.choice(["bytearray", "view"])})
+                continue
             if it.get("literal") and rng.random() < 0.12:
                 # motif: a read-only view of a message slot, used again after the producer wrote the next message into it
                 a_, b_ = rng.choice([("[1, 2, 3]", "[4, 5, 6]"), ('{"x": 1, "y": 2}', '{"x": 7, "y": 8}'), ("[[1], [2]]", "[[3], [4]]")])
@@ -271,6 +279,25 @@ class C12(PropBase):
         sess.seen_containers = {}
         sess.keepalive = []
 
+    def exec_op(self, sess, i, step):
+        import typelib
+
+        if step["op"] != "s_iter_late":
+            return None
+        T = sess.T(step)
+        buf = bytearray(step["a"].encode())
+        x = buf if step["carrier"] == "bytearray" else memoryview(buf)
+        first = sess.guarded(sess.call, step, typelib.unmarshal, T, x)
+        if not first.ok:
+            return first
+        # the fault: the buffer is overwritten with the next message between the return and the first read
+        if isinstance(x, memoryview):
+            x.release()
+        buf[:] = step["b"].encode()
+        sess.faults["mutate_input"] += 1
+        sess.fault_fired_before = True
+        return sess.guarded(list, first.value)
+
 
     def comparable(self, sess, i, step):
         for k in ("x", "v"):
@@ -282,6 +309,15 @@ class C12(PropBase):
 
     def check(self, sess, i, step, out):
         sid = step.get("id", i)
+        if step["op"] == "s_iter_late":
+            import typelib
+
+            # the reference: the same message alone, read at once
+            ref = sess.guarded(lambda: list(typelib.unmarshal(sess.T(step), step["a"].encode())))
+            if ref.ok != out.ok or (ref.ok and model.canon(ref.value) != model.canon(out.value)):
+                sess.violation("input-read-after-return", i, {"t": step["t"]["src"], "message": step["a"], "buffer_reused_for": step["b"], "got": repr(out)[:120],
+                                                              "alone": repr(ref)[:120]}, sig="iterator-reads-the-callers-buffer-late")
+            return
         # (d) input unchanged by the step: rebuild the input fresh and compare
         for k in ("x", "v"):
             if k in step and sid in sess.inputs:
